@@ -529,6 +529,8 @@ class Resolver:
             ops = tuple(self.operand(o, d) for o in rv['ops'])
             if isinstance(k, dict) and 'adt' in k:
                 return ('agg', k['adt'] + '::' + k['variant'], ops)
+            if isinstance(k, dict) and 'closure' in k:
+                return ('agg', 'closure', ops, k['closure'])       # 4th component: the closure body's name
             if isinstance(k, dict):
                 return ('agg', list(k.keys())[0], ops)
             return ('agg', k, ops)
